@@ -25,6 +25,8 @@ def mc_configs(ctx):
                 ("one-open-autoX-openfail", nu.mc_consts(auto=("X",), mo=1, mcl=0, fail=1)),
                 ("pending-validation-2cuts-2reconnects", nu.mc_consts(mo=1, moy=0, mcl=0, cut=2, rec=2)),
                 ("retry-after-failure", nu.mc_consts(mo=2, moy=0, mcl=0)),
+                ("foreign-dial-failure", nu.mc_consts(mo=1, mcl=0, fdf=1)),
+                ("foreign-dial-failure-cut-reconnect", nu.mc_consts(mo=1, moy=0, mcl=0, cut=1, rec=1, fdf=1)),
                 ("retry-after-failure-repaired", nu.mc_consts(mo=2, moy=0, mcl=0, fixed=set(nu.SIG_TAG.values()))),
                 ("one-open-no-auto-repaired-earlyval", nu.mc_consts(mo=1, mcl=0, fixed=set(nu.SIG_TAG.values()), early=True)),
                 ("one-open-no-auto-earlyval", nu.mc_consts(mo=1, mcl=0, early=True))]
@@ -35,6 +37,10 @@ def mc_configs(ctx):
             ("autoX-openfail", nu.mc_consts(auto=("X",), mo=1, mcl=0, fail=1)),
             ("pending-validation-2cuts-2reconnects", nu.mc_consts(mo=1, moy=0, mcl=0, cut=2, rec=2)),
             ("retry-after-failure", nu.mc_consts(mo=2, moy=0, mcl=0)),
+            ("foreign-dial-failure", nu.mc_consts(mo=1, mcl=0, fdf=1)),
+            ("foreign-dial-failure-x2", nu.mc_consts(mo=1, mcl=0, fdf=2)),
+            ("foreign-dial-failure-close-cut", nu.mc_consts(mo=1, moy=0, mcl=1, cut=1, rec=1, fdf=1)),
+            ("foreign-dial-failure-autoXY", nu.mc_consts(auto=("X", "Y"), mo=1, mcl=0, cut=1, fdf=1)),
             ("retry-after-failure-repaired", nu.mc_consts(mo=2, moy=0, mcl=0, fixed=set(nu.SIG_TAG.values()))),
             ("open-close-repaired", nu.mc_consts(mo=1, mcl=1, fixed=set(nu.SIG_TAG.values()))),
             ("one-open-repaired-earlyval", nu.mc_consts(mo=1, mcl=0, fixed=set(nu.SIG_TAG.values()), early=True)),
@@ -44,7 +50,12 @@ def mc_configs(ctx):
 
 def model_check(ctx):
     out = []
+    seen = []
     for name, consts in mc_configs(ctx):
+        # (the "-repaired" variants coincide with the plain ones once the fix is recorded in known_findings.txt)
+        if consts in seen:
+            continue
+        seen.append(consts)
         r = tlc_mc(ctx, "NotifMC.tla", write_cfg(ctx, "mc_%s.cfg" % name, consts, nu.MC_LINES), workers=6 if ctx.quick() else 10, timeout=3000)
         if not r["ok"]:
             raise ToolError("NotifMC violates an invariant outside the tagged design findings in config %s; the model must be "
@@ -62,6 +73,8 @@ def model_negative(ctx):
                               ("silent-negotiation-error", "QuiesceOK", nu.mc_consts(mo=1, mcl=0, mut="silent_negotiation_error")),
                               ("vp-keeps-connection-state", "NoUnknownPanic", nu.mc_consts(mo=1, moy=0, mcl=0, cut=2, rec=2, mut="vp_keeps_conn_state")),
                               ("open-ignored-unrepaired-untagged", "NoUnknownPanic", nu.mc_consts(mo=2, moy=0, mcl=0, fixed=(), tags=nu.TAGS - set(nu.SIG_TAG.values()))),
+                              ("dial-failure-wipes-state", "NoUnknownPanic", nu.mc_consts(mo=1, mcl=0, fdf=1, mut="dialfail_wipes_state")),
+                              ("dial-failure-wipes-open-stream", "QuiesceOK", nu.mc_consts(auto=("X", "Y"), mo=1, moy=0, mcl=0, fdf=1, mut="dialfail_wipes_state", tags=nu.TAGS | {"outbound-unexpected-closed", "outbound-negotiated-unexpected-closed", "inbound-negotiated-unexpected-closed", "negotiation-error-unexpected-closed", "established-peer-exists-closed"})),
                               ("silent-task-end", "QuiesceOK", nu.mc_consts(auto=("X", "Y"), mo=1, mcl=0, cut=1, mut="silent_task_end"))]:
         r = tlc_mc(ctx, "NotifMC.tla", write_cfg(ctx, "neg_%s.cfg" % name, consts, ["SPECIFICATION Spec", "INVARIANTS MonOK NoUnknownPanic QuiesceOK", "CHECK_DEADLOCK FALSE"]),
                    workers=6, timeout=1200, expect_violation=True)
@@ -229,7 +242,7 @@ def evidence(mc, gstats, summs, lines, nseg, nev, scripts):
             pt["endpoint_logs"] += 1
             pt["scenarios"].add(d.get("sc"))
             continue
-        k = d["e"] + (":" + str(d.get("k", d.get("r", ""))) if d["e"] in ("ev", "conn", "open", "val", "close") else "")
+        k = d["e"] + (":" + str(d.get("k", d.get("r", ""))) if d["e"] in ("ev", "conn", "open", "val", "close", "note") else "")
         kinds[k] = kinds.get(k, 0) + 1
         per_tr[tr]["kinds"][k] = per_tr[tr]["kinds"].get(k, 0) + 1
         if d["e"] == "quiesce" and not d["stable"]:
@@ -245,7 +258,7 @@ def evidence(mc, gstats, summs, lines, nseg, nev, scripts):
             samples.append({k: v for k, v in d.items() if k != "t"})
         if len(samples) >= 8:
             break
-    needed = ["ev:validate", "ev:opened", "ev:closed", "ev:openfail", "open:ok", "val:sent", "conn:cut", "conn:up", "conn:down"]
+    needed = ["ev:validate", "ev:opened", "ev:closed", "ev:openfail", "open:ok", "val:sent", "conn:cut", "conn:up", "conn:down", "note:dialfail"]
     missing = ["%s/%s" % (t, k) for t in nu.TRANSPORTS for k in needed if not per_tr.get(t, {}).get("kinds", {}).get(k)]
     if missing:
         raise ToolError("event kinds never exercised on real nodes: %s" % missing)
